@@ -38,6 +38,8 @@ def run(ctx):
     d_refusal_skips_output(ctx)
     c_response_shapes(ctx)
     a_options_always_published(ctx)
+    e_trace_of_nothing(ctx)
+    c_bot_message_current_turn(ctx)
 
 
 def a_tables(ctx, flows):
@@ -190,6 +192,13 @@ def c_table(ctx, flows):
         raise AnalysisError("generate_async not found", anchor=LLMRAILS + "::generate_async")
     stores = [n for n in walk_no_nested(fn) if isinstance(n, ast.Assign) and isinstance(n.targets[0], ast.Subscript)
               and isinstance(n.targets[0].slice, ast.Constant) and n.targets[0].slice.value == "bot_message"]
+    # the other spelling: a context message built as a literal `{"role": "context", "content": {"bot_message": <value>}}`
+    lit = []
+    for d_ in walk_no_nested(fn):
+        if isinstance(d_, ast.Dict):
+            for k_, v_ in zip(d_.keys, d_.values):
+                if isinstance(k_, ast.Constant) and k_.value == "bot_message":
+                    lit.append((d_, v_))
     ctx.floor("C16.c.bot-message", LLMRAILS, "stores of the bot_message context key in generate_async", len(stores), 1)
     for st in stores:
         guard = None
@@ -234,10 +243,18 @@ def c_table(ctx, flows):
                        % first_line(guard.test, 70)) if ok else \
                     "guard `%s`: with input=%s output=%s retrieval=%s it evaluates to %s for dialog=True and %s for dialog=False (must be False / True): the supplied bot message is not handed over exactly when dialog rails are off" % (
                         (first_line(guard.test, 70),) + (bad if bad else (None, None, None, None, vn)))
-            v = src(st.value)
+            from ..source import inline_temporaries as _inl
+            v = _inl(st.value, fn, st.lineno)
             if ok and not re.search(r"\[-1\]\[['\"]content['\"]\]$", v):
                 ok, msg = False, "the value moved to bot_message is `%s`, not the content of the last (assistant) message" % v
         ctx.check("C16.c.bot-message", LLMRAILS, "LLMRails.generate_async", first_line(st), ok, msg, line=st.lineno)
+    from ..source import inline_temporaries as _inl2
+    for d_, v_ in lit:
+        v = _inl2(v_, fn, d_.lineno)
+        okl = re.search(r"\[-1\]\[['\"]content['\"]\]$", v) is not None
+        ctx.check("C16.c.bot-message", LLMRAILS, "LLMRails.generate_async", "context message {bot_message: %s}" % first_line(v_, 30), okl,
+                  "the context message that hands over the supplied bot message carries the content of the last (assistant) message" if okl else
+                  "the context message carries `%s`, not the content of the last (assistant) message" % v, line=d_.lineno)
 
 
 MARKERS = {
@@ -300,8 +317,12 @@ def d_markers(ctx, flows):
         while p is not None and p is not fn:
             anc.append(p)
             p = getattr(p, "_parent", None)
-        in_loop = any(isinstance(a, (ast.For, ast.While)) for a in anc)
-        open_test = any(isinstance(a, ast.If) and re.sub(r"\s", "", src(a.test)) in ("activated_railisnotNone",) for a in anc)
+        # "in the loop" = inside the loop over the EVENTS (the first loop of the function); a later loop over the rails that are still open is the after-the-loop part
+        in_loop = any(a is loops[0] for a in anc) if loops else any(isinstance(a, (ast.For, ast.While)) for a in anc)
+        objv = src(st.targets[0].value)
+        open_test = any(isinstance(a, ast.If) and re.sub(r"\s", "", src(a.test)) in ("%sisnotNone" % objv, "%sisNone" % objv, objv) for a in anc) or \
+            any(isinstance(g, ast.If) and re.sub(r"\s", "", src(g.test)) in ("%sisNone" % objv,) and any(isinstance(x, (ast.Continue, ast.Return)) for x in g.body)
+                for a in anc if isinstance(a, (ast.For, ast.While)) for g in a.body)
         type_test = any(isinstance(a, ast.If) and sorted(k.value for k in ast.walk(a.test) if isinstance(k, ast.Constant) and isinstance(k.value, str)) == ["input", "output"]
                         for a in anc)
         after_loop = bool(loops) and st.lineno > loops[0].end_lineno
@@ -315,10 +336,16 @@ def d_markers(ctx, flows):
         if isinstance(n, ast.If) and isinstance(n.test, ast.Compare) and isinstance(n.test.left, ast.Name) and n.test.left.id == "event_type":
             consts = sorted(k.value for k in ast.walk(n.test) if isinstance(k, ast.Constant) and isinstance(k.value, str))
             if consts == ["InputRailFinished", "OutputRailFinished"]:
+                def _closing(v):
+                    # None, or "back to the enclosing rail": `<stack>.pop() if <stack> else None`
+                    if isinstance(v, ast.Constant) and v.value is None:
+                        return True
+                    return isinstance(v, ast.IfExp) and isinstance(v.orelse, ast.Constant) and v.orelse.value is None and isinstance(v.body, ast.Call) \
+                        and isinstance(v.body.func, ast.Attribute) and v.body.func.attr == "pop" and src(v.body.func.value) == src(v.test)
                 closes.append(any(isinstance(s, ast.Assign) and isinstance(s.targets[0], ast.Name) and s.targets[0].id == "activated_rail"
-                                  and isinstance(s.value, ast.Constant) and s.value.value is None for s in n.body))
+                                  and _closing(s.value) for s in n.body))
     ctx.check("C16.d.stop", PLOG, "compute_generation_log", "bracket closed on *RailFinished", bool(closes) and all(closes),
-              "the current rail is reset to None exactly when its Finished marker arrives", line=fn.lineno)
+              "the current rail is closed (reset to None, or to the rail it runs inside) exactly when its Finished marker arrives", line=fn.lineno)
 
 
 def e_options_injected(ctx):
@@ -486,6 +513,59 @@ def a_options_always_published(ctx):
               "whenever the call has an options object it is written into the context before the runtime runs" if ok else
               "the runtime can be reached with an options object that was not written into the context (from line %s): a call with `state=` and no options keeps the `$generation_options` "
               "of the previous call - e.g. output rails switched off once stay off" % (leak[0].line if leak and leak[0].line else "entry"), line=(leak[1].line if leak else ga.lineno))
+
+
+EVALPY = "nemoguardrails/eval/eval.py"
+
+
+def e_trace_of_nothing(ctx):
+    """`with only input selected the reply is the unchanged user text` also holds when NO rail is activated by the selection (input selected, only output rails configured; an
+    empty selection) and tracing is on: the trace export must cope with an empty list of activated rails instead of indexing its first element (F155)."""
+    if not ctx.tree.exists(EVALPY):
+        return
+    t = ctx.tree.ast(EVALPY)
+    fn = find_function(t, "_extract_spans")
+    if fn is None:
+        raise AnalysisError("_extract_spans not found", anchor=EVALPY + "::_extract_spans")
+    arg = fn.args.args[0].arg if fn.args.args else None
+    cfg = CFG(fn)
+    idx = [n for n in cfg.nodes if n.ast is not None and any(isinstance(x, ast.Subscript) and src(x.value) == arg and not isinstance(x.slice, ast.Slice) for x in walk_no_nested(n.ast))]
+    ctx.floor("C16.e.trace-empty", EVALPY, "positional reads of the activated rails in _extract_spans", len(idx), 1)
+    reach = cfg.reachable_under([cfg.entry], {arg: False, "len(%s) == 0" % arg: True, "len(%s) > 0" % arg: False})
+    leak = [n for n in idx if n in reach]
+    ok = not leak
+    ctx.check("C16.e.trace-empty", EVALPY, "_extract_spans", "no activated rail", ok,
+              "with an empty list of activated rails no element of it is read" if ok else
+              "`%s` is read although the list can be empty: with tracing enabled a call whose rails selection activates nothing raises IndexError out of generate instead of "
+              "returning the unchanged text" % first_line(leak[0].ast, 50), line=(leak[0].line if leak else fn.lineno))
+
+
+def c_bot_message_current_turn(ctx):
+    """The supplied bot message belongs to THIS turn.  If it is only written into the context message at the very start of the message list, it is part of the conversation
+    prefix that a later call finds in the events cache - and is then not applied again, while `$bot_message` holds what the previous turn left (F156).  Decided: under the
+    hand-over guard the message is placed relative to the LAST USER MESSAGE (a context message spliced in before it)."""
+    t = ctx.tree.ast(LLMRAILS)
+    fn = find_function(t, "generate_async")
+    lits = [d for d in walk_no_nested(fn) if isinstance(d, ast.Dict) and any(isinstance(k, ast.Constant) and k.value == "bot_message" for k in d.keys)]
+    spliced = []
+    for d in lits:
+        p_ = getattr(d, "_parent", None)
+        top = d
+        while p_ is not None and isinstance(p_, (ast.Dict, ast.List, ast.BinOp, ast.Tuple)):
+            top = p_
+            p_ = getattr(p_, "_parent", None)
+        slices = [x for x in ast.walk(top) if isinstance(x, ast.Subscript) and isinstance(x.slice, ast.Slice) and src(x.value) == "messages"]
+        if isinstance(top, ast.BinOp) and len(slices) >= 2:
+            # the split position derives from the user messages
+            names = {n.id for sl in slices for n in ast.walk(sl.slice) if isinstance(n, ast.Name)}
+            from_user = any(isinstance(a, ast.Assign) and isinstance(a.targets[0], ast.Name) and a.targets[0].id in names and "user" in src(a.value) and "role" in src(a.value)
+                            for a in walk_no_nested(fn))
+            spliced.append(from_user)
+    ok = bool(spliced) and all(spliced)
+    ctx.check("C16.c.bot-message-turn", LLMRAILS, "LLMRails.generate_async", "the supplied bot message is set for the current turn", ok,
+              "the context message with the supplied bot message is spliced in before the last user message" if ok else
+              "the supplied bot message is only written into the first context message of the list: on a later turn with the same options and the same supplied message that message is "
+              "inside the cached prefix, is not applied again, and the output rails check the bot message the previous turn left behind", line=(lits[0].lineno if lits else fn.lineno))
 
 
 def b_event_budget(ctx):
